@@ -1,5 +1,11 @@
+mod c44;
 mod c45;
+mod c55;
 use vkit::{Check, Level};
 fn main() {
-    vkit::main(&[Check { id: "C45", level: Level::Exploration, run: c45::run }]);
+    vkit::main(&[
+        Check { id: "C44", level: Level::Exploration, run: c44::run },
+        Check { id: "C45", level: Level::Exploration, run: c45::run },
+        Check { id: "C55", level: Level::Exploration, run: c55::run },
+    ]);
 }
